@@ -26,7 +26,7 @@ ASSUMPTIONS = [
     "bare counts without ago/in are not generated (the statement defines only the directed forms)",
     "pytz gives the expression of the simulated instant in TIMEZONE / process zone",
 ]
-EXPECTED_PROBES = {"route_clock": 1, "route_base_skewed": 1, "clamped": 1, "overflow_none": 1, "year_rollover": 1, "time_override": 1, "to_timezone": 1, "tick": 1, "dst_crossing_relaxed": 1, "period_checked": 1}
+EXPECTED_PROBES = {"aware_relative_base": 1, "route_clock": 1, "route_base_skewed": 1, "clamped": 1, "overflow_none": 1, "year_rollover": 1, "time_override": 1, "to_timezone": 1, "tick": 1, "dst_crossing_relaxed": 1, "period_checked": 1}
 
 UNITS = ["second", "minute", "hour", "day", "week", "month", "year", "decade"]
 SUBDAY = {"second", "minute", "hour"}
@@ -149,7 +149,7 @@ def gen_case(rng, ctx):
     effective_zone = tzs or zone
     # zone databases (pytz / zoneinfo / C library) agree only on 1950..2037: outside that range
     # no zone conversion and no offset may be involved in what is compared
-    no_conv = "TO_TIMEZONE" not in settings and aw is not True
+    no_conv = "TO_TIMEZONE" not in settings and aw is not True  # (an aware base keeps its own fixed offset: handled in eval)
     wide = no_conv and (route == "base" or (zone == "UTC" and effective_zone == "UTC"))
     lo, hi = (1800, 2200) if wide else (1952, 2035)
     wall = gen_base_wall(rng, lo, hi)
@@ -171,6 +171,10 @@ def gen_case(rng, ctx):
         skew = dt.datetime(rng.randrange(1971, 2036), rng.randrange(1, 13), rng.randrange(1, 29), rng.randrange(24), rng.randrange(60))
         clock_us = world.to_us(skew)
         base = enc_value(wall)
+        if rng.random() < 0.25 and "TO_TIMEZONE" not in settings:
+            # an *aware* RELATIVE_BASE (fixed offset): the arithmetic is on its own wall clock
+            off = rng.choice([540, -210, 345, 0, -660, 60])
+            base = {"__dt__": [wall.year, wall.month, wall.day, wall.hour, wall.minute, wall.second, wall.microsecond], "tz": {"offset_s": off * 60.0}}
         if rng.random() < 0.3:
             policy = ["tick", 86400 * 10 ** 6 * 31]
     return {"zone": zone, "clock_us": clock_us, "policy": policy, "route": route, "base": base, "phrase": text, "units": units, "sign": sign, "clock_time": clock_time, "settings": settings}
@@ -243,7 +247,9 @@ def eval_case(case):
             stats["tick"] = 1
     else:
         stats["route_base_skewed"] = 1
-        walls = [base]
+        walls = [base.replace(tzinfo=None)]
+        if base.tzinfo is not None:
+            stats["aware_relative_base"] = 1
     exp_walls = set()
     carry = set()
     for w in walls:
@@ -272,6 +278,8 @@ def eval_case(case):
     else:
         real_walls = {w for w in exp_walls if w is not None}
         crossing = any(offsets_between(eff_zone, b, w) for b in walls for w in real_walls) if eff_zone != "UTC" else False
+        if base is not None and base.tzinfo is not None:
+            crossing = False  # fixed-offset aware base: TIMEZONE does not re-interpret it
         if to_tz:
             stats["to_timezone"] = 1
         if crossing:
@@ -297,7 +305,10 @@ def eval_case(case):
             problems.append(("awareness", "RETURN_AS_TIMEZONE_AWARE=True returned a naive datetime"))
         if aware is not True and res.tzinfo is not None:
             problems.append(("awareness", "naive result expected, got tzinfo %r" % (res.tzinfo,)))
-        if aware is True and res.tzinfo is not None and not crossing:
+        if aware is True and res.tzinfo is not None and base is not None and base.tzinfo is not None and not to_tz:
+            if res.utcoffset() != base.utcoffset():
+                problems.append(("wrong-offset", "got offset %s, expected the base's own %s" % (res.utcoffset(), base.utcoffset())))
+        elif aware is True and res.tzinfo is not None and not crossing:
             target = pytz.timezone(to_tz or eff_zone)
             try:
                 exp_off = target.localize(res.replace(tzinfo=None), is_dst=None).utcoffset()
